@@ -140,7 +140,12 @@ Definition poll_h3 (s : cq) : list cqe :=
     after each poll, the marker [-1] followed by the published head. *)
 Inductive action :=
   | Post (cs : list cqe)
-  | Poll (during : list (N * list cqe)) (at_end : list cqe).
+  | Poll (during : list (N * list cqe)) (at_end : list cqe)
+  | PollErr (cs : list cqe) (errno : Z).
+    (* a [Ring::poll] whose [io_uring_enter] (made only when the poll finds the queue empty) flushes,
+       posts [cs] and then fails: the error is returned, nothing is dispatched, the head is not
+       moved; when the poll does not enter the kernel it is an ordinary poll and [cs] arrives
+       right after it *)
 
 Definition obs_cqe (c : cqe) : list Z := [nz (ud c); res c].
 
@@ -167,15 +172,24 @@ Fixpoint poll_loop (fuel : nat) (opk : N) (plan : list (N * list cqe)) (s : cq) 
           let '(s1, o) := step s' PollStep in poll_loop f (opk + 1) plan s1 (acc ++ o)
   end.
 
+Definition run_poll (s : cq) (plan : list (N * list cqe)) (at_end : list cqe) : cq * list Z :=
+  let s0 := fst (step s PollBegin) in
+  let '(s1, o1) := poll_loop (N.to_nat (wsub32 (ut s0) (uh s0))) 0 plan s0 [] in
+  let s2 := kposts s1 at_end in
+  let '(s3, o3) := step s2 PollEnd in
+  (s3, flat_map obs_cqe (o1 ++ o3) ++ [(-1)%Z; nz (khead s3)]).
+
 Definition run_action (s : cq) (a : action) : cq * list Z :=
   match a with
   | Post cs => (kposts s cs, [])
-  | Poll plan at_end =>
-      let s0 := fst (step s PollBegin) in
-      let '(s1, o1) := poll_loop (N.to_nat (wsub32 (ut s0) (uh s0))) 0 plan s0 [] in
-      let s2 := kposts s1 at_end in
-      let '(s3, o3) := step s2 PollEnd in
-      (s3, flat_map obs_cqe (o1 ++ o3) ++ [(-1)%Z; nz (khead s3)])
+  | Poll plan at_end => run_poll s plan at_end
+  | PollErr cs errno =>
+      if khead s =? ktail s then
+        (* in terms of [step]: only kernel events ([kflush] and [KPost]s); no poll event at all *)
+        let s1 := kposts (kflush s) cs in
+        (s1, [(-3)%Z; errno; (-1)%Z; nz (khead s1)])
+      else
+        let '(s1, o) := run_poll s [] [] in (kposts s1 cs, o)
   end.
 
 Fixpoint run_actions (s : cq) (acts : list action) : list Z :=
